@@ -9,7 +9,16 @@ for dn, target in (("checks.d", checks["properties"]), ("manifest.d", src["check
     if os.path.isdir(d):
         for fn in sorted(os.listdir(d)):
             if fn.endswith(".json"):
-                target.update(json.load(open(os.path.join(d, fn))))
+                for pid, frag in json.load(open(os.path.join(d, fn))).items():
+                    cur = target.setdefault(pid, {})
+                    for k, v in frag.items():
+                        if isinstance(v, list):
+                            cur.setdefault(k, [])
+                            cur[k] += [x for x in v if x not in cur[k]]
+                        elif k in ("text", "note") and k in cur and v not in cur[k]:
+                            cur[k] = cur[k] + " || " + v
+                        else:
+                            cur[k] = v
 engines = {e["name"]: e for e in src["engines"]}
 for pid, c in src["checks"].items():
     for e in c.get("engines", []):
